@@ -126,10 +126,18 @@ func parseCodeDirectory(blob []byte, itype uint32) (*CodeDirectory, error) {
 	h := dir.HashFunc.New()
 	h.Write(blob)
 	dir.CDHash = h.Sum(nil)
-	// read hash slots
-	hashBase := int(hdr.HashOffset)
-	hashLen := int(hdr.HashSize)
-	slot := func(i int) []byte {
+	// read hash slots. special slots sit immediately before hashOffset and
+	// code slots after it, and all of them must lie within the blob.
+	hashBase := int64(hdr.HashOffset)
+	hashLen := int64(hdr.HashSize)
+	specialSlots := int64(hdr.SpecialSlotCount)
+	codeSlots := int64(hdr.CodeSlotCount)
+	if hashBase-specialSlots*hashLen < 0 {
+		return nil, errors.New("special hash slots exceed the code directory")
+	} else if hashBase+codeSlots*hashLen > int64(len(blob)) {
+		return nil, errors.New("code hash slots exceed the code directory")
+	}
+	slot := func(i int64) []byte {
 		hash := blob[hashBase+i*hashLen : hashBase+(i+1)*hashLen]
 		for _, c := range hash {
 			if c != 0 {
@@ -139,11 +147,11 @@ func parseCodeDirectory(blob []byte, itype uint32) (*CodeDirectory, error) {
 		// all zero
 		return nil
 	}
-	dir.CodeHashes = make([][]byte, hdr.CodeSlotCount)
-	for i := 0; i < int(hdr.CodeSlotCount); i++ {
+	dir.CodeHashes = make([][]byte, codeSlots)
+	for i := int64(0); i < codeSlots; i++ {
 		dir.CodeHashes[i] = slot(i)
 	}
-	for i := 1; i <= int(hdr.SpecialSlotCount); i++ {
+	for i := int64(1); i <= specialSlots; i++ {
 		// special slots are placed before the code slots with an index equal to
 		// the negative of their superblob itype
 		v := slot(-i)
